@@ -40,6 +40,9 @@ package redisemu
 //@ ghost gTries int
 // the client is in the wait queues of its keys (set when it registers, cleared when the wake signal fires: the pusher takes a woken client out of every queue)
 //@ ghost gInQueues bool
+// the remaining time to the command's deadline as last computed, and whether it was computed since the last timer was armed
+//@ ghost gUntilFresh bool
+//@ ghost gUntilValue int64
 //@ func blockOnListChangeWorker
 //@ prop C12 C11
 //@ mode int
@@ -52,6 +55,8 @@ package redisemu
 //@ ghostafter "ws := blockFn()" : gInQueues = true
 //@ ghostafter "ws = blockFn()" : gInQueues = true
 //@ ghostbefore "return false" : gInQueues = false
+//@ assertbefore "waitTimer := time.NewTimer(timeout)" [C12] deadline.kept: gUntilFresh && int64(timeout) == gUntilValue
+//@ ghostafter "waitTimer := time.NewTimer(timeout)" : gUntilFresh = false
 //@ loop 1 invariant [C11] queued.while.waiting: gInQueues
 //@ callback op
 //@ modifies *
@@ -84,8 +89,10 @@ package redisemu
 //@ modifies signalListTuple objectWaitList.queueHead objectWaitList.queueTail wakeSignal.objectsHead wakeSignal.objectsTail map
 
 //@ func time.Until
-//@ trusted
-//@ pure
+//@ trusted time left until a deadline; the ghost records that the value was computed just now
+//@ modifies ghost.gUntilFresh ghost.gUntilValue
+//@ effect gUntilFresh = true
+//@ effect gUntilValue = result
 //@ func time.NewTimer
 //@ trusted
 //@ modifies alloc
